@@ -92,6 +92,13 @@ theorem eulerStep_lip {n : Nat} {L h : α} {f : List α → α → List α} (hf 
   have := within_vadd hw (within_vscale hh (hf.lip y z t d hy hz hw))
   exact within_of_eq this (by ring)
 
+/-- local version: `f` only needs to be `L`-Lipschitz between the states of a set `D` -/
+theorem eulerStep_lip_on {D : List α → Prop} {L h : α} {f : List α → α → List α}
+    (hf : LipFieldOn D L f) (hh : 0 ≤ h) (y z : List α) (t d : α) (hy : D y) (hz : D z)
+    (hw : Within d y z) : Within ((1 + h * L) * d) (eulerStep f h y t) (eulerStep f h z t) := by
+  have := within_vadd hw (within_vscale hh (hf y z t d hy hz hw))
+  exact within_of_eq this (by ring)
+
 omit [IsStrictOrderedRing α] in
 theorem length_rk4Step {n : Nat} {L : α} {f : List α → α → List α} (hf : LipField n L f) (h : α)
     {y : List α} (t : α) (hy : y.length = n) : (rk4Step f h y t).length = n := by
@@ -167,31 +174,61 @@ section gronwall
 variable {α : Type} [Field α] [LinearOrder α] [IsStrictOrderedRing α]
 open Finset
 
-/-- consistency + stability ⇒ convergence, first `N` steps. -/
+/-- consistency + stability ⇒ convergence, first `N` steps; `Φ` only needs to be `ρ`-Lipschitz between
+states of a set `D` that contains the exact values and the numerical iterates. -/
+theorem one_step_error_on {D : List α → Prop} {ρ : α} {Φ : List α → α → List α}
+    (hΦ : ∀ y z t d, D y → D z → Within d y z → Within (ρ * d) (Φ y t) (Φ z t))
+    (tk : ℕ → α) (Y u : ℕ → List α) (τ : α) (N : ℕ)
+    (hY : ∀ k, k < N → D (Y k)) (hu : ∀ k, k < N → D (u k))
+    (hτ : ∀ k, k < N → Within τ (Y (k + 1)) (Φ (Y k) (tk k)))
+    (hu0 : u 0 = Y 0) (hus : ∀ k, k < N → u (k + 1) = Φ (u k) (tk k)) :
+    ∀ k, k ≤ N → Within (τ * ∑ i ∈ range k, ρ ^ i) (Y k) (u k) := by
+  intro k
+  induction k with
+  | zero =>
+    intro _
+    rw [hu0]
+    simp only [range_zero, sum_empty, mul_zero]
+    exact within_refl le_rfl _
+  | succ k ih =>
+    intro hk
+    have hw := ih (by omega)
+    rw [hus k (by omega)]
+    have h1 := hτ k (by omega)
+    have h2 := hΦ (Y k) (u k) (tk k) _ (hY k (by omega)) (hu k (by omega)) hw
+    refine within_of_eq (within_trans h1 h2) ?_
+    rw [geom_sum_succ]
+    ring
+
+/-- when `D` is invariant under the step (`StableStep`) the iterates stay in `D` by themselves -/
 theorem one_step_error {D : List α → Prop} {ρ : α} {Φ : List α → α → List α} (hΦ : StableStep D ρ Φ)
     (tk : ℕ → α) (Y u : ℕ → List α) (τ : α) (N : ℕ)
     (hY : ∀ k, k ≤ N → D (Y k))
     (hτ : ∀ k, k < N → Within τ (Y (k + 1)) (Φ (Y k) (tk k)))
     (hu0 : u 0 = Y 0) (hus : ∀ k, k < N → u (k + 1) = Φ (u k) (tk k)) :
     ∀ k, k ≤ N → D (u k) ∧ Within (τ * ∑ i ∈ range k, ρ ^ i) (Y k) (u k) := by
-  intro k
-  induction k with
-  | zero =>
-    intro h0
-    rw [hu0]
-    refine ⟨hY 0 h0, ?_⟩
-    simp only [range_zero, sum_empty, mul_zero]
-    exact within_refl le_rfl _
-  | succ k ih =>
-    intro hk
-    obtain ⟨hD, hw⟩ := ih (by omega)
-    rw [hus k (by omega)]
-    refine ⟨hΦ.inv _ _ hD, ?_⟩
-    have h1 := hτ k (by omega)
-    have h2 := hΦ.lip (Y k) (u k) (tk k) _ (hY k (by omega)) hD hw
-    refine within_of_eq (within_trans h1 h2) ?_
-    rw [geom_sum_succ]
-    ring
+  have hD : ∀ k, k ≤ N → D (u k) := by
+    intro k
+    induction k with
+    | zero => intro h0; rw [hu0]; exact hY 0 h0
+    | succ k ih => intro hk; rw [hus k (by omega)]; exact hΦ.inv _ _ (ih (by omega))
+  intro k hk
+  exact ⟨hD k hk, one_step_error_on hΦ.lip tk Y u τ N (fun k hk => hY k (by omega))
+    (fun k hk => hD k (by omega)) hτ hu0 hus k hk⟩
+
+/-- rows version of `one_step_error_on` -/
+theorem rows_error_on {D : List α → Prop} {ρ : α} {Φ : List α → α → List α}
+    (hΦ : ∀ y z t d, D y → D z → Within d y z → Within (ρ * d) (Φ y t) (Φ z t))
+    (times : List α) (rows : List (List α)) (Y : ℕ → List α) (τ : α)
+    (hr0 : rows.getD 0 [] = Y 0)
+    (hrs : ∀ i, i + 1 < times.length → rows.getD (i + 1) [] = Φ (rows.getD i []) (times.getD i 0))
+    (hY : ∀ k, k + 1 < times.length → D (Y k)) (hu : ∀ k, k + 1 < times.length → D (rows.getD k []))
+    (hτ : ∀ k, k + 1 < times.length → Within τ (Y (k + 1)) (Φ (Y k) (times.getD k 0))) :
+    ∀ k, k < times.length → Within (τ * ∑ i ∈ range k, ρ ^ i) (Y k) (rows.getD k []) := by
+  intro k hk
+  exact one_step_error_on hΦ (fun k => times.getD k 0) Y (fun k => rows.getD k []) τ (times.length - 1)
+    (fun k hk => hY k (by omega)) (fun k hk => hu k (by omega)) (fun k hk => hτ k (by omega)) hr0
+    (fun k hk => hrs k (by omega)) k (by omega)
 
 /-- the same for the rows of a scan over a list of times (the shape `euler_rows` / `rk4_rows` give):
 row `0` is `Y 0`, row `i+1` is the step of row `i` at `times[i]`. -/
@@ -352,6 +389,35 @@ theorem exQuad_lip : LipField 1 1 exQuad := by
       obtain ⟨p1, p2⟩ := within_single.mp hw
       simp only [exQuad]
       exact within_single.mpr (by constructor <;> linarith)
+
+/-- SIR-like field with the bilinear infection term `s·i` (not globally Lipschitz) -/
+def exSI : List ℚ → ℚ → List ℚ := fun y _ =>
+  match y with
+  | [s, i] => [-(s * i), s * i - i / 2]
+  | _ => y.map (fun _ => 0)
+
+/-- the unit box `0 ≤ s, i ≤ 1` -/
+def exBox (y : List ℚ) : Prop := y.length = 2 ∧ ∀ x ∈ y, 0 ≤ x ∧ x ≤ 1
+
+instance (y : List ℚ) : Decidable (exBox y) := by unfold exBox; exact inferInstance
+
+theorem exSI_lip : LipFieldOn exBox (5 / 2) exSI := by
+  intro y z t d hy hz hw
+  match y, hy, z, hz, hw with
+  | [s, i], hy, [s', i'], hz, hw =>
+    obtain ⟨⟨p1, p2⟩, ⟨q1, q2⟩⟩ := within_pair hw
+    have hs := hy.2 s (by simp)
+    have hi := hy.2 i (by simp)
+    have hs' := hz.2 s' (by simp)
+    have hi' := hz.2 i' (by simp)
+    have hd : 0 ≤ d := by linarith
+    have e : s * i - s' * i' = s * (i - i') + i' * (s - s') := by ring
+    have u1 : s * (i - i') ≤ d := by nlinarith
+    have u2 : -d ≤ s * (i - i') := by nlinarith
+    have u3 : i' * (s - s') ≤ d := by nlinarith
+    have u4 : -d ≤ i' * (s - s') := by nlinarith
+    simp only [exSI]
+    exact within_pair_mk (by constructor <;> linarith) (by constructor <;> linarith)
 
 /-- the exact solution `t²` of `exQuad` sampled on the grid `k·h` -/
 def exQuadY (h : ℚ) (k : ℕ) : List ℚ := [((k : ℚ) * h) ^ 2]
